@@ -367,6 +367,12 @@ var conveniences = func() []convenience {
 		v := v
 		out = append(out, convenience{fmt.Sprintf("Scale(%g,%g)", v[0], v[1]), func(p *canvas.Path) *canvas.Path { return p.Scale(v[0], v[1]) }, oracle.AffScale(v[0], v[1])})
 	}
+	// uniform scales whose determinant is far below any absolute epsilon (a change of units), through
+	// Transform: the matrix is perfectly conditioned
+	for _, f := range []float64{1e-5, 1e-6, 1e6} {
+		f := f
+		out = append(out, convenience{fmt.Sprintf("Transform(Identity.Scale(%g,%g))", f, f), func(p *canvas.Path) *canvas.Path { return p.Transform(canvas.Identity.Scale(f, f)) }, oracle.AffScale(f, f)})
+	}
 	for _, v := range [][2]float64{{3, -2}, {0, 0}, {-1.5, 7}} {
 		v := v
 		out = append(out, convenience{fmt.Sprintf("Translate(%g,%g)", v[0], v[1]), func(p *canvas.Path) *canvas.Path { return p.Translate(v[0], v[1]) }, oracle.AffTranslate(v[0], v[1])})
